@@ -234,7 +234,7 @@ CHECKS = {
     },
     'C10': {
         'level_text': 'stripPadding(appendPadding(p,bs)) = p decided by z3 for every plaintext content of every length 0..4*bs+1, bs in {8,16}, on the SSA of the real functions; counterexamples replayed natively.',
-        'level_note': 'bounds: plaintext length 0..4*bs+1 case-split, contents symbolic; no stubs on this kernel. Outside: longer plaintexts; the cipher/key-transport layers (being added).',
+        'level_note': 'bounds: plaintext length 0..4*bs+1 case-split, contents symbolic; no stubs on this kernel. Outside: longer plaintexts; interoperability with other implementations.',
         'harnesses': [
             {'name': 'Harness_C10_padding', 'pkg': 'xmlenc', 'replay': 'direct', 'must_reach': ['stripped'],
              'quick': {}, 'thorough': {}},
@@ -246,3 +246,39 @@ CHECKS = {
         'assumptions': [],
     },
 }
+
+
+# ---- what was added after the first version of the level notes (appended so that the notes stay one per check)
+_ARTIFACT = (' Artifact path: Harness_C04_artifact runs the real ParseXMLArtifactResponse / parseArtifactResponse on a materialised SOAP envelope '
+             '(ArtifactResponse with arbitrary fields and its own unsigned / trusted / untrusted signature around a Response document) and '
+             'Harness_C09_artifact_http runs ParseResponse with a SAMLart parameter against an HTTP client whose reply the harness fixes '
+             '(transport error, any status code, empty / rootless / non-XML / well-formed body); net/http client calls are contract stubs.')
+_MORE_NOTES = {
+    'C01': (' Harness_C01_encrypted: the assertion inside an EncryptedAssertion for the SP certificate or another one (xmlenc.Decrypt is a contract: the '
+            "recipient's private key returns the element, any other key an error; the xmlenc code itself is C10/C11). Harness_C01_chardata: AttributeValue / NameID / "
+            'Issuer / Audience decoded from text that comments split into pieces - a type with its own UnmarshalXML is executed token by token against a decoder model '
+            '(CharData / Comment / EndElement), a plain struct follows the documented ",chardata" rule.' + _ARTIFACT),
+    'C02': _ARTIFACT,
+    'C03': ' The flow harness keeps one level of nested status codes.' + _ARTIFACT,
+    'C04': _ARTIFACT,
+    'C09': ' Harness_C01_encrypted (decryption path) is included.' + _ARTIFACT,
+    'C05': ' The request is validated both as a bare value and as received over HTTP (HTTPRequest set, Host header one of three names, concrete SSO URL).',
+    'C08': ' SP side: Harness_C01_encrypted (see C01) decides that a decrypted assertion gets exactly the signature checks of a plaintext one and that ciphertext for another key is rejected.',
+    'C10': ' Harness_C10_direct / _transport: every block cipher and every RSA key transport (digest variants) round-trips through the real Encrypt/Decrypt under symbolic crypto (inverse law keyed by key, hash and label).',
+    'C11': " Harness_C11_certmatch: a key wrapped by the library to the recipient's public key whose embedded certificate is replaced (own / other RSA / ECDSA / Ed25519 / not a certificate) decrypts only with the recipient's own.",
+    'C12': (' Harness_C12_redirect / _logout_redirect: query strings are ropes (text, raw symbolic bytes, QueryEscape/PathEscape of a byte or an opaque text, position-wise ReplaceAll); '
+            'the emitted RawQuery is parsed with url.ParseQuery and the relay state must come back byte for byte as one parameter. The random source may return a short first read (io.ReadFull is modelled as the loop it is).'),
+    'C13': ' The redirect signature is verified over the octets from SAMLRequest= to &Signature= exactly as they stand in the URL; the metadata harness runs with an RSA and an ECDSA key.',
+    'C14': ' Locations are drawn from eleven scheme prefixes (http, https, javascript, data, mixed-case JavaScript, vbscript, view-source, ftp, file, intent, none). Harness_C14_loginform: the same form obligations for the bundled IdP login form.',
+    'C15': (' Harness_C15_digits decides the same obligation with numerals modelled digit by digit (case split on the digit count, one fresh digit 0..9 per position tied to the number by a linear equation); '
+            'Trim*/Cut/Atoi/ParseInt/ParseFloat and any regexp that cannot tell digits apart work position by position, so the check does not depend on how the text is produced.'),
+    'C17': ' The step also carries the frame condition (no cookie is set other than the session cookie and the tracking cookie RelayState names), which is what makes the induction over interleaved flows valid.',
+    'C18': ' One level of nested status codes is kept.',
+    'C20': (' Registered descriptors are traced as heap objects (every load/store through a pointer into them). Harness_C20_linearizable runs the real MemoryStore methods as threads of one path '
+            '(engine/gosmt/conc.py: context switches where a thread is about to acquire a mutex, the next thread a decision of the path search) from three initial stores and checks results and final contents '
+            'against some linearization of the sequential map, stored values being arbitrary strings; violating schedules are also stress-replayed natively.'),
+}
+for _k, _v in _MORE_NOTES.items():
+    CHECKS[_k]['level_note'] += _v
+CHECKS['C20']['level_text'] += ' Linearizability of the store is decided on the data under every lock-granularity schedule of 2 threads x (2+1) operations (quick) / 3 threads x (2+1+1) (thorough).'
+CHECKS['C15']['level_text'] = CHECKS['C15']['level_text'].replace('the numerals are kept as tokens so the solver reasons about the integers, not digit strings', 'numerals kept as tokens of the integers in one harness and as digit runs in another')
